@@ -172,8 +172,8 @@ def crystal_recipe(rng):
                 atoms.append((rng.choice([1, 6, 7, 8]), p))
         ext = [max(a[1][c] for a in atoms) - min(a[1][c] for a in atoms) for c in range(3)]
         cell = [int(round((ext[c] + rng.uniform(2.9, 4.2)) * CUNIT)) for c in range(3)]
-        if not all(900 <= x <= 1500 for x in cell):
-            continue
+        if not all(900 <= x <= 1500 and x != 1200 for x in cell):
+            continue                                   # (an edge of exactly 6.000 A puts every atom's translate on the 6 A sphere)
         lst = {"cell": cell, "atoms": [{"z": z, "p": [int(round(x * CUNIT)) for x in p]} for z, p in atoms]}
         ok = True
         for a in lst["atoms"]:
@@ -187,6 +187,45 @@ def crystal_recipe(rng):
     return None
 
 
+def _star_shaped(cr, kind, lmax):
+    """Is every surface the crystal entry point describes star-shaped about its centre - exactly one crossing of w = 0.5 along
+    every direction of the transform grid within the search bounds?  Where a ray crosses the level more than once the radial
+    description is not unique and which crossing the root-finder reports may depend on rounding (a domain limit, judged by TLC)."""
+    import numpy as np
+    from chmpy.shape import SHT
+    from chmpy import StockholderWeight
+    from chmpy.core.element import Element
+    sht = SHT(lmax)
+    x, y, z = sht.grid_cartesian
+    g = np.c_[x.ravel(), y.ravel(), z.ravel()].astype(float)
+    systems = []
+    if kind == "crystal-mol":
+        for mol, nel, npos in cr.molecule_environments(radius=6.0):
+            c = np.array(mol.centroid, dtype=np.float32).astype(float)
+            dists = np.linalg.norm(np.asarray(mol.positions) - c, axis=1)
+            systems.append((np.asarray(mol.atomic_numbers), np.asarray(mol.positions, dtype=float), nel, npos, c, float(np.min(dists)) / 2, float(np.max(dists)) + 10.0))
+    else:
+        for sur in cr.atomic_surroundings(radius=6.0):
+            n = int(sur["centre"]["element"])
+            pos = np.asarray(sur["centre"]["cart_pos"], dtype=float)
+            systems.append((np.array([n]), pos[None, :], sur["neighbours"]["element"], sur["neighbours"]["cart_pos"], pos, 0.15, Element[n].vdw_radius * 3 + 2.0))
+    for (ie, ip, ne, npos, c, lo, hi) in systems:
+        if len(ne) == 0:
+            return False
+        sw = StockholderWeight.from_arrays(ie, ip, np.asarray(ne), np.asarray(npos, dtype=float))
+        rr = np.linspace(max(lo, 1e-3), hi, 96)
+        pts = (c[None, None, :] + rr[None, :, None] * g[:, None, :]).reshape(-1, 3)
+        w = np.asarray(sw.weights(pts.astype(np.float32)), dtype=float).reshape(len(g), len(rr)) - 0.5
+        # a margin around the level: values within 0.02 of it count as touching (a grazing ray is as bad as a second crossing)
+        sgn = np.where(w > 0.02, 1, np.where(w < -0.02, -1, 0))
+        for row in sgn:
+            nz = row[row != 0]
+            changes = int(np.sum(nz[1:] != nz[:-1]))
+            if changes != 1 or nz[0] != 1:
+                return False
+    return True
+
+
 def drive_crystal(rec):
     import numpy as np
     from chmpy.crystal import Crystal, UnitCell, SpaceGroup, AsymmetricUnit
@@ -197,6 +236,7 @@ def drive_crystal(rec):
                       len(rec["base"]["atoms"]), "molecular_shape_descriptors" if rec["kind"] == "crystal-mol" else "atomic_shape_descriptors",
                       rec["lmax"], None if rec["channel"] == "none" else rec["channel"], len(rec["words"]) + 1)}}
     ref = None
+    t["star"] = True
     for w in [[]] + rec["words"]:
         lst = capply(rec["base"], w)
         ps = {"word": w, "cell": lst["cell"], "atoms": lst["atoms"], "exc": "", "rows": []}
@@ -220,6 +260,10 @@ def drive_crystal(rec):
                 raise FloatingPointError("descriptor table")
             if ref is None:
                 ref = float(np.max(np.abs(d)))
+                try:
+                    t["star"] = bool(_star_shaped(cr, rec["kind"], rec["lmax"]))
+                except Exception:
+                    t["star"] = False
             ps["rows"] = [[int(round(float(x) / ref * 1048576)) if abs(x) / ref < 1000 else 2 ** 30 for x in row] for row in d]
         except Exception as e:
             # "surface not found inside the bounds" is a legitimate outcome for a loosely packed listing; what matters is that
@@ -380,6 +424,10 @@ def run(ctx):
                     if ctx.quick and (mi + lmax + len(kind) + len(channel)) % 3 and not (len(inner) == 1 and lmax == lmaxes[0]):
                         continue
                     pool = [w for w in words if (kind == "stockholder" or "E:" not in w)]
+                    if len(inner) >= 18:
+                        # the 22 A rod is there for its search bounds; at low l_max its descriptor is far from band-limited and the
+                        # rotation tolerance does not apply to it: rigid translations and relistings only
+                        pool = [w for w in pool if "C:" not in w and "Q:" not in w] or pool[:1]
                     # exterior swaps / translations need an environment
                     sel = rng.sample(pool, min(len(pool), ctx.pick(8, 60)))
                     ws = [parse_word(w) for w in sel]
